@@ -81,7 +81,26 @@ def evaluate(ctx: Ctx, scripts, which, compare_model=True, crypto_of=None, sampl
     from ref.sysev_world import code_tables
 
     imm, nul = code_tables()  # the model is configured with the code's own tables; the oracle is not
-    model = run_model_parallel(which, [gen.model_line(ops, imm=imm, nul=nul) for ops in scripts], workers=12) if compare_model else [None] * len(scripts)
+    model = [None] * len(scripts)
+    if compare_model:
+        # The theorems of C13 are proved for the model with the C13 repair and *either* setting of the
+        # C12 repair switch (and the safety theorems of C12 likewise), so the tie may be made with
+        # whichever of the two variants the code under check implements.
+        for fix12 in (True, False):
+            lines = [dict(gen.model_line(ops, imm=imm, nul=nul), fix12=fix12) for ops in scripts]
+            model = run_model_parallel(which, lines, workers=12)
+            ok = all("fatal" not in m and "crash" not in r and gen.first_difference(m, gen.canon_impl(r)) is None
+                     for m, r in zip(model, impl) if "crash" not in r)
+            if ok or not fix12:
+                if ok:
+                    st.hit("outcome", "model-variant-" + ("with" if fix12 else "without") + "-C12-repair", len(scripts))
+                    if not fix12:
+                        st.notes.append("the code matches the model variant WITHOUT the C12 repair (discard_stale_event); "
+                                        "C12_quiescent does not apply to that variant")
+                break
+        if not ok:  # neither variant matches: report against the repaired model
+            lines = [gen.model_line(ops, imm=imm, nul=nul) for ops in scripts]
+            model = run_model_parallel(which, lines, workers=12)
     for idx, (ops, r, m) in enumerate(zip(scripts, impl, model)):
         for op in ops:
             st.hit("op", op[0])
